@@ -211,11 +211,11 @@ static int ccstub(int argc, char **argv, const char *base) {
     int rc = 0;
     if (out) rc |= create_file(out, "cc");
     if (mf) {
-        /* a trivial, well-formed depfile naming nothing: header tracking is
+        /* an empty (valid) depfile naming nothing: header tracking is
          * the real compilers' business (C07) */
         mkparents(mf);
         int fd = open(mf, O_WRONLY | O_CREAT | O_TRUNC, 0644);
-        if (fd >= 0) { if (write(fd, "\n", 1) != 1) rc = 1; close(fd); } else rc = 1;
+        if (fd >= 0) close(fd); else rc = 1;
     }
     free(ins.p);
     return rc ? 1 : exit_status();
